@@ -34,7 +34,7 @@ def extra_eval(c, io, mo):
     return fails
 
 
-CFG = DC.Config("C15", D.ALL_KINDS, make_cmds, nsets=(12, 80), big=True, extra_eval=extra_eval,
+CFG = DC.Config("C15", D.ALL_KINDS, make_cmds, nsets=(12, 40), big=True, extra_eval=extra_eval,
                 rule="all 13 kinds x {fresh, reloaded through the generic loader, reloaded through the kind's own loader (random load option "
                      "for HASHHF/HASHRPF)}: numElements must equal n, maxLength must lie in [longest, longest+1], and the longest member "
                      "must extract intact. Non-trivial = a query command; distinct by (kind, params, S, command).")
